@@ -61,7 +61,7 @@ PROPS["C20"] = {
 
 PROPS["C16"] = {
     "level_text": "Proof by contract of the master's echo comparison (CommandHeader::compare / compare_items / Prefix::equals) for all ten command header kinds: success IFF same kind, same count and every object octet-identical with status SUCCESS; full value domain, up to 3 objects per header (bounded in count).",
-    "level_note": "Not covered: iterating several headers (CommandHeaders::compare over a HeaderCollection), SELECT-then-OPERATE sequencing and the one-outcome-per-request accounting (async task code). Known finding D6: a signed-zero float echo is accepted. A faithful NaN echo is rejected (safe side).",
+    "level_note": "Not covered: iterating several headers (CommandHeaders::compare over a HeaderCollection), SELECT-then-OPERATE sequencing and the one-outcome-per-request accounting (async task code).",
     "not_covered": ["master::tasks::command (async): SELECT then OPERATE sequencing, every exit reports exactly one outcome", "master::request::CommandHeaders::compare over a HeaderCollection (dispatcher)"],
 }
 PROPS["C17"] = {
